@@ -341,3 +341,100 @@ func checkUseAfterRelease(w *World, r *Report) {
 }
 
 var _ = token.MUL
+
+// derivesFromTemplateTree: the value is (a part of) the node tree stored in Template.nodes —
+// through type assertions, field loads of node structs, element loads and range iteration.
+func derivesFromTemplateTree(v ssa.Value, seen map[ssa.Value]bool, depth int) string {
+	if seen[v] || depth > 14 {
+		return ""
+	}
+	seen[v] = true
+	switch x := v.(type) {
+	case *ssa.TypeAssert:
+		return derivesFromTemplateTree(x.X, seen, depth+1)
+	case *ssa.MakeInterface:
+		return derivesFromTemplateTree(x.X, seen, depth+1)
+	case *ssa.ChangeInterface:
+		return derivesFromTemplateTree(x.X, seen, depth+1)
+	case *ssa.ChangeType:
+		return derivesFromTemplateTree(x.X, seen, depth+1)
+	case *ssa.Extract:
+		return derivesFromTemplateTree(x.Tuple, seen, depth+1)
+	case *ssa.Next:
+		return derivesFromTemplateTree(x.Iter, seen, depth+1)
+	case *ssa.Range:
+		return derivesFromTemplateTree(x.X, seen, depth+1)
+	case *ssa.Index:
+		return derivesFromTemplateTree(x.X, seen, depth+1)
+	case *ssa.Lookup:
+		return derivesFromTemplateTree(x.X, seen, depth+1)
+	case *ssa.Slice:
+		return derivesFromTemplateTree(x.X, seen, depth+1)
+	case *ssa.Phi:
+		for _, e := range x.Edges {
+			if s := derivesFromTemplateTree(e, seen, depth+1); s != "" {
+				return s
+			}
+		}
+	case *ssa.IndexAddr:
+		return derivesFromTemplateTree(x.X, seen, depth+1)
+	case *ssa.FieldAddr:
+		if tn, f := fieldOfAddr(x); tn == "Template" && f == "nodes" {
+			return "Template.nodes"
+		}
+		return derivesFromTemplateTree(x.X, seen, depth+1)
+	case *ssa.Field:
+		return derivesFromTemplateTree(x.X, seen, depth+1)
+	case *ssa.UnOp:
+		if x.Op != token.MUL {
+			return ""
+		}
+		if u := unspill(x); u != ssa.Value(x) {
+			return derivesFromTemplateTree(u, seen, depth+1)
+		}
+		if al, ok := x.X.(*ssa.Alloc); ok && al.Referrers() != nil {
+			for _, ref := range *al.Referrers() {
+				if st, ok := ref.(*ssa.Store); ok && st.Addr == ssa.Value(al) {
+					if s := derivesFromTemplateTree(st.Val, seen, depth+1); s != "" {
+						return s
+					}
+				}
+			}
+			return ""
+		}
+		return derivesFromTemplateTree(x.X, seen, depth+1)
+	}
+	return ""
+}
+
+// checkTemplateTreeNeverReleased (R01.9 / R02.5): the tree of a Template is never released — it
+// is shared by every render (and every goroutine) that fetched the template, registered or not
+// any more.  Obligation: every release site of the package.
+func checkTemplateTreeNeverReleased(w *World, r *Report, rule string) {
+	rf := &releaseFacts{w: w}
+	rf.solve()
+	n, bad := 0, 0
+	for _, fn := range w.pkgFuncs() {
+		instrsOf(fn, func(in ssa.Instruction) {
+			c, ok := in.(ssa.CallInstruction)
+			if !ok {
+				return
+			}
+			if _, isGo := in.(*ssa.Go); isGo {
+				return
+			}
+			v, how := rf.releasedArg(c)
+			if v == nil {
+				return
+			}
+			n++
+			if from := derivesFromTemplateTree(v, map[ssa.Value]bool{}, 0); from != "" {
+				bad++
+				r.bad(rule, ssaName(fn), "a template's node tree is never released", w.posOf(in.Pos()), "the value handed to "+how+" comes from "+from+": nodes of a template that may still be rendering (in this or another goroutine, or through a *Template the caller kept) go back to the pools and are wiped or handed to the next parse — later renders of that template produce another template's text")
+			}
+		})
+	}
+	if bad == 0 {
+		r.ok(rule, "(package)", "a template's node tree is never released", "-", fmt.Sprintf("none of the %d release sites is handed a value that derives from Template.nodes", n), true)
+	}
+}
